@@ -130,7 +130,8 @@ func TestC19(t *testing.T) {
 					c.Cap = size
 				case len(ends) > 0:
 					e := ends[rapid.IntRange(0, len(ends)-1).Draw(t, "cap-op")]
-					in := rapid.IntRange(0, 3).Draw(t, "cap-inside")
+					// the buffer ends 0-3 bytes inside the call's bytes, or (data blocks) after whole 16-byte rows of it
+					in := rapid.SampledFrom([]int{0, 1, 2, 3, 15, 16, 17, 31, 32, 33, 48, 1 << 20}).Draw(t, "cap-inside")
 					if in >= e[1] {
 						in = e[1] - 1
 					}
